@@ -41,4 +41,41 @@ PROPS = {
         "units": [unit("props", "^TestC07", tier(120000, 8, 300), tier(6000000, 16, 3000), fuzz=["FuzzScalarDecode"])],
         "checks_expected": ["C07/decode", "C07/encode"],
     },
+    "C01": {
+        "rule": "reference: (point spec, k) with the point from {identity, G, [j]G, lift_x(x) for boundary-biased x, endomorphism image, "
+                "negation} given Z=1 through a decoder and then re-represented by 0..2 value-preserving recipe steps (P+O, O+P, P-O, "
+                "(P+Q)-Q, 2P-P, Decode(Encode), Copy/Set, white-box rescale by lambda, identity recipes P-P, [0]P, [k]P+[n-k]P, O-O, "
+                "(0:Y:0)); k from the boundary-biased generator; oracle = affine double-and-add in the model on the value denoted by the "
+                "raw coordinates. Non-trivial = k > 1 and P != O (nil-scalar cases also count). kfold: k in 0..64 against literal k-fold "
+                "sums (model and implementation Add). metamorphic: [a]P+[n-a]P=O, [a]P+[b]P=[a+b]P, [a]([b]P)=[ab]P, [n-1]P=-P; "
+                "non-trivial = a,b > 1 and P != O. Distinct by case hash.",
+        "units": [unit("wb", "^TestC01", tier(2400, 8, 600), tier(120000, 16, 3400), overlay="access")],
+        "checks_expected": ["C01/reference", "C01/kfold", "C01/metamorphic"],
+    },
+    "C02": {
+        "rule": "cases (P spec, Q spec, op, relation class, aliasing): relation drawn first from {independent, equal, negation, "
+                "p-identity, q-identity, both-identity, Q=2P, Q=-2P, shared y (endomorphism), argument is the receiver, nil}, each operand "
+                "re-represented by 0..3 recipe steps (incl. white-box rescaling and identity forms (0:1:0),(0:-1:0),(0:Y3:0),(0:Y:0)); "
+                "op from {Add, Subtract, Double, Negate}. Oracle: textbook affine law on the values denoted by the raw coordinates; result "
+                "must be a valid projective point, argument value unchanged. Non-trivial = anything but 'independent, both Z=1, neither "
+                "identity'. Distinct by case hash.",
+        "units": [unit("wb", "^TestC02", tier(40000, 8, 600), tier(2000000, 16, 3400), overlay="access")],
+        "checks_expected": ["C02/grouplaw"],
+    },
+    "C04": {
+        "rule": "cases (point spec with 0..3 recipe steps, second recipe for the same base): Encode/EncodeUncompressed/XCoordinate/Hex/"
+                "MarshalBinary compared with SEC1 bytes built by the model from the value the raw coordinates denote; both encodings "
+                "round-trip through Decode (identity included); two representations encode identically. Non-trivial = identity, Z != 1, "
+                "odd y, or any recipe step. Distinct by case hash.",
+        "units": [unit("wb", "^TestC04", tier(24000, 8, 600), tier(1200000, 16, 3400), overlay="access")],
+        "checks_expected": ["C04/encodings"],
+    },
+    "C05": {
+        "rule": "ordered pairs by relation class {same element/different recipes, P vs -P (shared x), P vs endo(P) (shared y), endo+neg, "
+                "unrelated, any vs identity, identity vs identity (all identity forms), same pointer}; oracle = model equality of the "
+                "values denoted by the raw coordinates; symmetry, 0/1 range, IsIdentity. Non-trivial = shared coordinate, an identity "
+                "involved, equal elements in different representations, or any recipe step. Distinct by case hash.",
+        "units": [unit("wb", "^TestC05", tier(40000, 8, 600), tier(2000000, 16, 3400), overlay="access")],
+        "checks_expected": ["C05/equal"],
+    },
 }
